@@ -127,6 +127,11 @@ SYS_QUICK = [
     dict(name='mixed-out', H=3600, dur=2 * 3600, qset=[-0.03, 0.03], tank_link='pipe_out'),
     dict(name='fill-cv', H=1800, dur=3600, qset=[0.05, -0.05], tank_link='pipe_in', second_link=True),
 ]
+SYS_QUICK += [
+    dict(name='fill-cv-in', H=3600, dur=2 * 3600, qset=[0.02, 0.0], tank_link='pipe_in', p2_cv=True),          # check-valve pipe feeding the tank
+    dict(name='drain+user-control', H=3600, dur=2 * 3600, qset=[-0.02], tank_link='pipe_in', time_control=True),
+    dict(name='volcurve-rerun', H=3600, dur=3600, qset=[0.02, -0.02], tank_link='pipe_in', vol_curve=True, rerun_with_edited_curve=True),
+]
 SYS_THOROUGH = SYS_QUICK + [
     dict(name='mixed3', H=3600, dur=3 * 3600, qset=[-0.03, 0.0, 0.03], tank_link='pipe_in'),
     dict(name='drain-grid', H=1800, dur=2 * 3600, qset=[-0.04, 0.0], tank_link='pipe_out', report=3600),
@@ -145,6 +150,14 @@ def check_system(rep, cfg):
             plane.policy = tankkit.make_policy(cfg, V.choice)
             c.clock = wn
             res = plane.run(wn)
+            x['curve'] = list(wn.get_curve('VC').points) if cfg.get('vol_curve') else None
+            if cfg.get('rerun_with_edited_curve'):
+                # second life of the same model in the same process: the volume curve is edited (same number of points), the model reset, and run again
+                wn.get_curve('VC').points = [(lv, 2.0 * vol) for lv, vol in wn.get_curve('VC').points]
+                x['curve'] = list(wn.get_curve('VC').points)
+                wn.reset_initial_values()
+                plane.policy = tankkit.make_policy(cfg, lambda nm, opts: V.choice('second_' + nm, opts))
+                res = plane.run(wn)
             return V, x, res
         n = 0
         failed = set()
@@ -166,14 +179,18 @@ def check_system(rep, cfg):
             on_grid = not isinstance(cfg.get('report', 'ALL'), str)
             claims.append(('initial-level', L[0] == init))
             if not on_grid:
-                claims.append(('integration', z3.And(*[zabs((L[k + 1] - L[k]) * rv(A) - D[k] * (T[k + 1] - T[k])) <= rv(1e-9) * (1 + zabs(D[k] * (T[k + 1] - T[k]))) for k in range(len(T) - 1)])))
+                if x.get('curve'):
+                    Vol = lambda lv: real(symx.sym_interp(Sym(lv), [p_[0] for p_ in x['curve']], [p_[1] for p_ in x['curve']]))
+                else:
+                    Vol = lambda lv: lv * rv(A)
+                claims.append(('integration', z3.And(*[zabs(Vol(L[k + 1]) - Vol(L[k]) - D[k] * (T[k + 1] - T[k])) <= rv(1e-9) * (1 + zabs(D[k] * (T[k + 1] - T[k]))) for k in range(len(T) - 1)])))
             lim = []
             qmax = rv(max(abs(q) for q in cfg['qset']))
             run_max = rv(0)
             for k in range(len(T)):
                 if k > 0:
                     run_max = z3.If(zabs(D[k - 1]) > run_max, zabs(D[k - 1]), run_max)   # largest tank flow seen so far
-                slack = 2 * (run_max if not on_grid else qmax) / rv(A) + rv(1e-9)
+                slack = 2 * (run_max if not on_grid else qmax) / rv(25.0 if x.get('curve') else A) + rv(1e-9)
                 lim.append(z3.And(L[k] >= mn - slack, L[k] <= mx + slack))
             claims.append(('within-limits', z3.And(*lim)))
             claims.append(('no-discharge-at-min', z3.And(*[z3.Implies(L[k] <= mn, D[k] >= 0) for k in range(len(T))])))
@@ -219,8 +236,17 @@ def replay_system(i):
     with warnings.catch_warnings():
         warnings.simplefilter('ignore')
         res = _realise(wn, cfg, qs)
+        if cfg.get('rerun_with_edited_curve') and not isinstance(res, str):
+            qs2, k = [], 0
+            while 'choice:second_q%d' % k in i:
+                qs2.append(float(i['choice:second_q%d' % k]))
+                k += 1
+            wn.get_curve('VC').points = [(lv, 2.0 * vol) for lv, vol in wn.get_curve('VC').points]
+            wn.reset_initial_values()
+            res = _realise(wn, cfg, qs2, pat='real2')
     if isinstance(res, str):
         return res
+    curve = list(wn.get_curve('VC').points) if cfg.get('vol_curve') else None
     lv = res.node['pressure']['T']
     dm = res.node['demand']['T']
     times = [int(t) for t in lv.index]
@@ -230,14 +256,18 @@ def replay_system(i):
     area = None
     for a, b in zip(times[:-1], times[1:]):
         if isinstance(cfg.get('report', 'ALL'), str):
-            dl = lv[b] - lv[a]
-            if not close(dl * A, dm[a] * (b - a), 1e-5, 1e-6):
-                return 'level changes by %r m between t=%d and t=%d but net inflow %r x dt / A = %r' % (dl, a, b, dm[a], dm[a] * (b - a) / A)
+            if curve:
+                Vf = lambda x_: float(np.interp(x_, [p_[0] for p_ in curve], [p_[1] for p_ in curve]))
+                dv = Vf(lv[b]) - Vf(lv[a])
+            else:
+                dv = (lv[b] - lv[a]) * A
+            if not close(dv, dm[a] * (b - a), 1e-5, 1e-6):
+                return 'stored volume changes by %r m3 between t=%d and t=%d but net inflow %r x dt = %r' % (dv, a, b, dm[a], dm[a] * (b - a))
     run_max = 0.0
     for k, t in enumerate(times):
         if k:
             run_max = max(run_max, abs(dm[times[k - 1]]))
-        slack = 2 * (run_max if isinstance(cfg.get('report', 'ALL'), str) else max(abs(q) for q in cfg['qset'])) / A + 1e-6
+        slack = 2 * (run_max if isinstance(cfg.get('report', 'ALL'), str) else max(abs(q) for q in cfg['qset'])) / (25.0 if curve else A) + 1e-6
         if lv[t] < mn - slack or lv[t] > mx + slack:
             return 'tank level %r at t=%d outside [min %r, max %r] by more than 2 s of flow (%r)' % (lv[t], t, mn, mx, slack)
         if lv[t] <= mn and dm[t] < -1e-9:
@@ -247,7 +277,7 @@ def replay_system(i):
     return None
 
 
-def _realise(wn, cfg, qs):
+def _realise(wn, cfg, qs, pat='real'):
     # replace the stub by hydraulics: J1 gets a demand pattern -q_k (per hydraulic step) fed from/through the tank only
     wn2 = wn
     H = cfg['H']
@@ -255,14 +285,15 @@ def _realise(wn, cfg, qs):
     # tank exchanges water only with J1 (P2); J1's other links are closed so that the tank flow equals J1's demand
     wn2.get_link('P1').initial_status = 'CLOSED'
     wn2.get_link('P1')._user_status = wntr.network.LinkStatus.Closed
-    wn2.get_link('P3').initial_status = 'CLOSED'
-    wn2.get_link('P3')._user_status = wntr.network.LinkStatus.Closed
+    # P3 stays as the model has it (user controls may act on it); J2 simply draws nothing so that the tank flow equals J1's demand
+    wn2.get_node('J2').demand_timeseries_list.clear()
+    wn2.get_node('J2').add_demand(0.0, None)
     seq = (qs + [qs[-1] if qs else 0.0] * nsteps)[:max(nsteps, 1)]
     wn2.options.time.pattern_timestep = H
-    wn2.add_pattern('real', [-q for q in seq])
+    wn2.add_pattern(pat, [-q for q in seq])
     j1 = wn2.get_node('J1')
     j1.demand_timeseries_list.clear()
-    j1.add_demand(1.0, 'real')
+    j1.add_demand(1.0, pat)
     try:
         return wntr.sim.WNTRSimulator(wn2).run_sim()
     except Exception as ex:
